@@ -73,9 +73,12 @@ M = [
  ('c13_split_without_topup', 'C13', 'nautilus/bounds/union.py',
   "            n_move = self.n_points_min - (len(labels) - len(other))\n",
   "            n_move = self.n_points_min - (len(labels) - len(other)) - 1\n"),
- ('c15_link_one_level', 'C15', 'nautilus/prior.py',
-  "            while isinstance(self.dists[self.keys.index(dist)], str):\n                dist = self.dists[self.keys.index(dist)]\n",
-  "            pass\n"),
+ ('c15_isf_direction', 'C15', 'nautilus/prior.py',
+  "                phys_points[..., i] = dist.isf(1 - points[..., i])\n",
+  "                phys_points[..., i] = dist.isf(points[..., i])\n"),
+ ('c15_fixed_shape', 'C15', 'nautilus/prior.py',
+  "                param_dict[key] = np.ones(phys_points[..., 0].shape) * dist\n",
+  "                param_dict[key] = np.ones(len(phys_points)) * dist\n"),
 ]
 
 os.makedirs(OUT, exist_ok=True)
